@@ -304,6 +304,7 @@ func init() {
 			ruleHeartbeatFields(c, map[string]string{"term": "GetTerm", "meta": "GetRegion", "leader": "GetLeader"})
 		})
 		c.Group("C06/end-key-infinity", "(shared with C07) an end key is ordered against other keys only where it was tested non-empty: the empty end key means +∞", func() { ruleEndKeyInfinity(c) })
+		c.Group("C06/saved-copy-not-aliased", "(shared with C07) saving a region never writes through the cached region's meta: encryption works on a deep copy", func() { ruleSavedCopyNotAliased(c) })
 		c.Group("C06/stale-answered", "a stale heartbeat changes nothing and is answered with an error", func() { ruleStaleAnswered(c) })
 	})
 }
@@ -372,4 +373,54 @@ func ruleEndKeyInfinity(c *Ctx) {
 	if nGetter < 2 {
 		c.Undec(rule, "ordering comparisons of region end keys in server/core", "at least 2", "", fmt.Sprint(nGetter))
 	}
+}
+
+// ruleSavedCopyNotAliased: the region written to storage is the cached
+// region's own meta (SaveRegion(region.GetMeta())). Encryption XORs the keys in
+// place, so it must work on a deep copy: the argument of the in-place cipher
+// derives from proto.Clone(region) and nothing is stored through the parameter.
+// A shallow copy shares the key slices — the cipher text lands in the served
+// region and the tree is ordered by keys that changed under it.
+func ruleSavedCopyNotAliased(c *Ctx) {
+	P := c.P
+	rule := c.Prop + "/saved-copy-not-aliased"
+	enc := P.Func("pkg/encryption", "EncryptRegion")
+	proc := F(P.Func("pkg/encryption", "processRegionKeys"))
+	c.saw(fnName(enc))
+	if len(enc.Params) == 0 {
+		c.Undec(rule, fnName(enc), "a region parameter", "", "")
+		return
+	}
+	region := enc.Params[0]
+	isClone := func(v ssa.Value) bool {
+		cl, _ := callOf(v)
+		if cl == nil || cl.Call.StaticCallee() == nil || cl.Call.StaticCallee().Name() != "Clone" || cl.Call.StaticCallee().Pkg == nil {
+			return false
+		}
+		if !strings.HasSuffix(cl.Call.StaticCallee().Pkg.Pkg.Path(), "protobuf/proto") || len(cl.Call.Args) != 1 {
+			return false
+		}
+		return derivesFrom(cl.Call.Args[0], same(region), 2)
+	}
+	n := 0
+	for _, ci := range callsIn(enc, false, proc) {
+		n++
+		a := callArgs(ci.Common())
+		c.Check(len(a) >= 1 && derivesFrom(a[0], isClone, 4) && strip(a[0]) != ssa.Value(region), rule, "region handed to the in-place cipher in "+fnName(enc),
+			"a deep copy (proto.Clone) of the region to save — the caller's region is the one the cache serves", P.instrPos(ci), "")
+	}
+	if n == 0 {
+		c.Undec(rule, "call of processRegionKeys in "+fnName(enc), "found", "", "")
+	}
+	okNoStore := true
+	for _, b := range enc.Blocks {
+		for _, ins := range b.Instrs {
+			if st, ok := ins.(*ssa.Store); ok {
+				if fa, ok := st.Addr.(*ssa.FieldAddr); ok && strip(fa.X) == ssa.Value(region) {
+					okNoStore = false
+				}
+			}
+		}
+	}
+	c.Check(okNoStore, rule, "stores through the parameter of "+fnName(enc), "none: the caller's region is left untouched", P.pos(enc.Pos()), "")
 }
